@@ -37,7 +37,7 @@ def strategy(tier):
     st.fixed_dictionaries({'mode': st.integers(0, 2), 'h': O.history('schema', 1, 14 if big else 10, max_ops=3)}),
     st.fixed_dictionaries({'mode': st.integers(0, 2), 'h': O.history('typechange', 1, 14 if big else 10)}),
     st.fixed_dictionaries({'mode': st.integers(0, 2), 'h': O.history('combo', 1, 8, max_ops=4)}),
-    st.fixed_dictionaries({'mode': st.integers(0, 2), 'h': O.history('triggers', 2, 10, max_ops=3)}),
+    st.fixed_dictionaries({'mode': st.integers(0, 2), 'h': O.history('triggers', 2, 10, max_ops=3, focus='triggers')}),
     st.fixed_dictionaries({'mode': st.integers(0, 2), 'h': O.history('widgets', 1, 8, focus='widgets')}),
   )
 
